@@ -147,6 +147,7 @@ func buildEventQuery(
 		if f.Tags != nil {
 			sub = sub.Distinct()
 
+			j := 0
 			for key, values := range f.Tags {
 				tagHashes := make([][]byte, len(values))
 				for i, value := range values {
@@ -154,7 +155,8 @@ func buildEventQuery(
 					tagHashes[i] = b[:]
 				}
 
-				etag := t.As("etag" + key)
+				etag := t.As(fmt.Sprintf("etag%d", j))
+				j++
 
 				sub = sub.
 					Join(etag, goqu.On(
